@@ -33,10 +33,12 @@ def cfg_inputs(cfg):
         recs = {"S1": rec("S1", [40, "N10", 30]), "S2": rec("S2", [25])}
         agp = ["# HiC MAP RESOLUTION: 1.000000 bp/texel", "Scaffold_1\t1\t80\t1\tW\tS1\t1\t80\t+", "Scaffold_2\t1\t25\t1\tW\tS2\t1\t25\t-"]
     elif cfg == "multi":
-        recs = {"S1": rec("S1", [50, "N10", 40]), "S2": rec("S2", [30]), "S3": rec("S3", [20]), "S4": rec("S4", [24]), "S5": rec("S5", [12])}
+        recs = {"S1": rec("S1", [50, "N10", 40]), "S2": rec("S2", [30]), "S3": rec("S3", [20]), "S4": rec("S4", [24]), "S5": rec("S5", [12]),
+                "S6": rec("S6", [33])}
         agp = ["# HiC MAP RESOLUTION: 1.000000 bp/texel",
                "Scaffold_1\t1\t100\t1\tW\tS1\t1\t100\t+\tPainted", "Scaffold_1\t101\t200\t2\tU\t100\tscaffold\tyes\tproximity_ligation",
-               "Scaffold_1\t201\t212\t3\tW\tS5\t1\t12\t+\tPainted\tUnloc",
+               "Scaffold_1\t201\t212\t3\tW\tS5\t1\t12\t+\tPainted\tUnloc", "Scaffold_1\t213\t312\t4\tU\t100\tscaffold\tyes\tproximity_ligation",
+               "Scaffold_1\t313\t345\t5\tW\tS6\t1\t33\t-\tPainted",
                "Scaffold_2\t1\t30\t1\tW\tS2\t1\t30\t-\tPainted\tX", "Scaffold_3\t1\t20\t1\tW\tS3\t1\t20\t+\tHaplotig",
                "Scaffold_4\t1\t24\t1\tW\tS4\t1\t24\t+\tContaminant"]
     else:  # twohap
